@@ -556,6 +556,32 @@ def write_vcf(path, samples, variants, rows, phased_plane=True):
     os.remove(plain)
 
 
+def write_anc_vcf(path, t, pops=("A", "B", "C")):
+    """bgzipped + tabix-indexed VCF with FORMAT GT:POP (what GenotypesAncestry reads); 255/254 = '.'"""
+    import pysam
+
+    plain = path[:-3]
+    with open(plain, "w") as f:
+        f.write("##fileformat=VCFv4.2\n")
+        for ch in sorted({v[1] for v in t["variants"]}):
+            f.write(f"##contig=<ID={ch}>\n")
+        f.write('##FORMAT=<ID=GT,Number=1,Type=String,Description="Genotype">\n')
+        f.write('##FORMAT=<ID=POP,Number=2,Type=String,Description="pops">\n')
+        f.write("#CHROM\tPOS\tID\tREF\tALT\tQUAL\tFILTER\tINFO\tFORMAT\t" + "\t".join(f"s{s}" for s in t["samples"]) + "\n")
+        for j, v in enumerate(t["variants"]):
+            cells = []
+            for i in range(len(t["samples"])):
+                a, b, ph = t["rows"][i][j]
+                x, y = t["anc"][i][j]
+                sa = "." if a >= 254 else str(a)
+                sb = "." if b >= 254 else str(b)
+                cells.append(f"{sa}{'|' if ph else '/'}{sb}:{pops[x]},{pops[y]}")
+            f.write(f"{v[1]}\t{v[2]}\tv{v[0]}\tA\tT,G,C\t.\t.\t.\tGT:POP\t" + "\t".join(cells) + "\n")
+    pysam.tabix_compress(plain, path, force=True)
+    pysam.tabix_index(path, preset="vcf", force=True)
+    os.remove(plain)
+
+
 class Load(Relation):
     name = "load"
     coq_module = "C13_Check"
@@ -592,7 +618,13 @@ class Load(Relation):
                 for c in r_:
                     if c[0] >= 254 and c[1] >= 254:
                         c[2] = 0  # cyvcf2 reports ./. as unphased
-            out.append({"cls": ["Genotypes", "GenotypesVCF"][int(rng.integers(0, 2))], "table": t, "kind": fl_["density"]})
+                    for q in (0, 1):
+                        if 3 < c[q] < 254:
+                            c[q] = 3  # the files declare three ALT alleles
+            cls = ["Genotypes", "GenotypesVCF", "GenotypesAncestry"][int(rng.integers(0, 3))]
+            if cls == "GenotypesAncestry":
+                t["anc"] = [[[int(rng.integers(0, 3)), int(rng.integers(0, 3))] for _ in t["variants"]] for _ in t["samples"]]
+            out.append({"cls": cls, "table": t, "kind": fl_["density"]})
         return out
 
     def run_impl(self, inp):
@@ -607,15 +639,24 @@ class Load(Relation):
         try:
             t = inp["table"]
             path = os.path.join(d, "in.vcf.gz")
-            write_vcf(path, t["samples"], t["variants"], t["rows"])
-            cls = getattr(hd, inp["cls"])
+            is_anc = inp["cls"] == "GenotypesAncestry"
+            if is_anc:
+                from haptools.transform import GenotypesAncestry as cls
+
+                write_anc_vcf(path, t)
+            else:
+                write_vcf(path, t["samples"], t["variants"], t["rows"])
+                cls = getattr(hd, inp["cls"])
             # what a bare read() returns (the table the checks start from)
-            g0 = cls(path)
-            g0.read()
-            raw = observe_state(g0, False)
+            try:
+                g0 = cls(path)
+                g0.read()
+                raw = observe_state(g0, is_anc)
+            except Exception as e:  # noqa
+                return {"raw": None, "out": {"other": err_kind(e), "msg": f"read(): {type(e).__name__}: {e}"[:200]}}
             try:
                 g = cls.load(path)
-                return {"raw": raw, "out": {"state": observe_state(g, False)}}
+                return {"raw": raw, "out": {"state": observe_state(g, is_anc)}}
             except ValueError as e:
                 m = RX_CELL.match(str(e))
                 if m:
@@ -630,15 +671,18 @@ class Load(Relation):
         sh = Shared()
         if not isinstance(obs, dict) or "raw" not in obs:
             k = obs.get("kind", 99) if isinstance(obs, dict) else 99
-            return sh.wrap(f"mkl {sh(inp['table'])} {sh(inp['table'])} (OOther {L.z(k)})")
+            return sh.wrap(f"mkl {L.b(inp['cls'] == 'GenotypesAncestry')} {sh(inp['table'])} {sh(inp['table'])} (OOther {L.z(k)})")
         o = obs["out"]
+        anc = L.b(inp["cls"] == "GenotypesAncestry")
+        if obs["raw"] is None:
+            return sh.wrap(f"mkl {anc} {sh(inp['table'])} {sh(inp['table'])} (OOther {L.z(o['other'])})")
         if "state" in o:
             ot = f"(ORet {sh(o['state'])} [])"
         elif "raise" in o:
             ot = f"(ORaise {optz(o['raise'][0])} {optz(o['raise'][1])} {sh(obs['raw'])})"
         else:
             ot = f"(OOther {L.z(o['other'])})"
-        return sh.wrap(f"mkl {sh(inp['table'])} {sh(obs['raw'])} {ot}")
+        return sh.wrap(f"mkl {anc} {sh(inp['table'])} {sh(obs['raw'])} {ot}")
 
     def nontrivial(self, inp, obs):
         return isinstance(obs, dict) and "out" in obs and ("raise" in obs["out"] or "state" in obs["out"])
@@ -653,13 +697,16 @@ class Load(Relation):
     def shrink(self, inp):
         t = inp["table"]
         n, p = len(t["samples"]), len(t["variants"])
+        anc = t.get("anc")
         if n > 1:
             for i in range(n):
-                yield dict(inp, table=dict(t, samples=t["samples"][:i] + t["samples"][i + 1:], rows=t["rows"][:i] + t["rows"][i + 1:]))
+                yield dict(inp, table=dict(t, samples=t["samples"][:i] + t["samples"][i + 1:], rows=t["rows"][:i] + t["rows"][i + 1:],
+                                           anc=None if anc is None else anc[:i] + anc[i + 1:]))
         if p > 1:
             for j in range(p):
                 yield dict(inp, table=dict(t, variants=t["variants"][:j] + t["variants"][j + 1:],
-                                           rows=[r[:j] + r[j + 1:] for r in t["rows"]]))
+                                           rows=[r[:j] + r[j + 1:] for r in t["rows"]],
+                                           anc=None if anc is None else [r[:j] + r[j + 1:] for r in anc]))
         for i in range(n):
             for j in range(p):
                 if t["rows"][i][j] != [0, 0, 1]:
@@ -680,6 +727,9 @@ class Load(Relation):
         if isinstance(obs, dict) and "out" in obs:
             o = obs["out"]
             t = obs["raw"]
+            kind = "ancestry" if inp["cls"] == "GenotypesAncestry" else "plain"
+            if "other" in o:
+                return f"load {kind}: raises exception kind {o['other']} instead of a ValueError naming the offending call"
             if "state" in o:
                 for k in ("missing", "biallelic", "phase"):
                     off = offenders(t, k, False)
